@@ -214,6 +214,11 @@ impl<'a, W: 'static, R: 'static, T: 'static> RuntimeScope<'a, W, R, T> {
             scope_parent,
             template: template.clone(),
         };
+        #[cfg(xray_verif)]
+        crate::verif::observe(crate::verif::Event::Frame {
+            height: ret.height.0,
+            root: stack_parent.is_none(),
+        });
         if rt
             .limits
             .depth_limit
